@@ -102,7 +102,9 @@ def bind(ids):
             with open(trace) as f:
                 events = [json.loads(line) for line in f if line.strip()]
             # candidates: events without a session that the unmodified judge accepts
-            cands = [e for e in events if "sid" not in e and "skip" not in e["out"]][:400]
+            cands = [e for e in events if "sid" not in e and "skip" not in e["out"]]
+            # prefer events with a result to corrupt
+            cands = ([e for e in cands if "ok" in e["out"] or e["out"].get("status") == 0][:300] + cands[:100])
             step = max(1, len(cands) // 12)
             for e in cands[::step]:
                 c = corrupt(e["out"])
